@@ -8,5 +8,5 @@ Extraction "../ocaml/model_c17.ml"
   attributed tc1d_count tc1d_occ tc1d attributed2 tc2d_count tc2d_occ tc2d
   cont_tc cont_tc2
   prior likelihood expo wls weights posterior argmax decoded occ_q
-  count_rows bin_size_s decode decode_binned edges4 decode_occ
+  count_rows bin_size_s decode decode_binned unravel inside_rows decode2d_post decode2d_decoded edges4 decode_occ
   Qred mem.
